@@ -47,6 +47,7 @@ pub struct DocParams<'a> {
     pub max_depth: usize,
     pub names: &'a [&'a str],
     pub max_width: usize,
+    pub long_arrays: bool,
 }
 
 fn gen_node(rng: &mut Rng, p: &DocParams, depth: usize, budget: &mut usize) -> Value {
@@ -59,6 +60,11 @@ fn gen_node(rng: &mut Rng, p: &DocParams, depth: usize, budget: &mut usize) -> V
     } else {
         rng.weighted(&[8, 1, 1, 0])
     };
+    if p.long_arrays && depth <= 2 && rng.chance(1, 25) {
+        // a long array of scalars: sizes around the powers of two that bounded tables like
+        let n = *rng.pick(&[9usize, 12, 17, 33, 40]);
+        return Value::Array((0..n).map(|i| if rng.chance(1, 3) { Value::from(i as i64) } else { scalar(rng) }).collect());
+    }
     match kind {
         0 => scalar(rng),
         1 => {
@@ -322,7 +328,11 @@ impl<'a> QGen<'a> {
     }
 
     fn int(&self, rng: &mut Rng) -> i64 {
-        rng.range(-4, 5)
+        if rng.chance(1, 10) {
+            *rng.pick(&[8i64, 9, 16, 33, -9, -17, 39, 12])
+        } else {
+            rng.range(-4, 5)
+        }
     }
 
     fn slice(&self, rng: &mut Rng) -> String {
@@ -462,6 +472,24 @@ impl<'a> QGen<'a> {
             _ => "@.re".to_string(),
         };
         format!("{}({},{}{})", name, arg, self.sp(rng), p)
+    }
+
+    /// Queries that reach into the long array `$.long` by jumps and by scans: state keyed by array
+    /// index (tables of rendered steps, per-index memos) shows only when an index beyond a block
+    /// boundary is reached before, or after, the lower ones.
+    pub fn index_jump(&self, rng: &mut Rng) -> String {
+        let k = *rng.pick(&[8i64, 9, 11, 16, 17, 20, 32, 33, 39]);
+        match rng.below(9) {
+            0 => format!("$.long[{}]", k),
+            1 => "$.long[-1]".to_string(),
+            2 => format!("$.long[{}:]", k),
+            3 => "$.long[::-1]".to_string(),
+            4 => "$.long[*]".to_string(),
+            5 => format!("$.long[?@ > {}]", k),
+            6 => format!("$..long[{}]", k),
+            7 => format!("$.long[{},{}]", k, rng.range(0, 3)),
+            _ => "$..*".to_string(),
+        }
     }
 
     /// Queries whose filter has an atom that depends on the root only: the same for every child, and
